@@ -608,14 +608,89 @@ class Fn:
         n = op[0]
         e = self.local_expr(n, depth, stack)
         projs = op[1:]
-        if projs:
-            # exact partial definitions (e.g. `_5.0 = ..`)
+        if projs and "*" not in projs and not (0 < n <= self.arg_count):
+            # exact partial definitions (e.g. `_5.0 = ..`) of a local aggregate built field by field
             pd = [d for d in self.defs().get(n, []) if d[2] == tuple(projs)]
             if pd and n not in stack and depth < 40:
                 alts = [self._rvalue_expr(d[3], depth + 1, stack + (n,)) for d in pd]
                 whole = [d for d in self.defs().get(n, []) if d[2] == ()]
                 if not whole:
                     return alts[0] if len(alts) == 1 else E("phi", tuple(alts))
+        for p in projs:
+            e = self._project(e, p)
+        return e
+
+    def expr_on_path(self, op, blocks, upto=None, _depth=0):
+        """Path-sensitive variant of `expr`: a local with several definitions is resolved to the
+        definition executed last on the given block path (before position `upto` = (index in path))."""
+        if isinstance(op, dict):
+            return self._const_expr(op)
+        pos = {}
+        for i, b in enumerate(blocks):
+            pos[b] = i  # last occurrence
+        limit = len(blocks) if upto is None else upto
+        n = op[0]
+        projs = tuple(op[1:])
+        if _depth > 30:
+            return self.expr(op)
+
+        def rv_on_path(rv, at):
+            if isinstance(rv, CallSite):
+                name = rv.short
+                args = tuple(self.expr_on_path(a, blocks, at, _depth + 1) for a in rv.args)
+                if name in TRANSPARENT_CALLS and len(args) == 1:
+                    return args[0]
+                if name == "Try::branch" and len(args) == 1:
+                    return E("trybranch", args[0])
+                return E("call", name, args, rv)
+            k = rv[0]
+            sub = lambda o: self.expr_on_path(o, blocks, at, _depth + 1)
+            if k == "use":
+                return sub(rv[1])
+            if k in ("ref", "rawptr"):
+                return sub(rv[2])
+            if k == "bin":
+                return E("bin", rv[1], sub(rv[2]), sub(rv[3]))
+            if k == "un":
+                return E("un", rv[1], sub(rv[2]))
+            if k == "cast":
+                inner = sub(rv[2])
+                if rv[1].startswith("PointerCoercion") or rv[1] in ("PtrToPtr", "Transmute"):
+                    return inner
+                return E("cast", inner, short_path(rv[3], 1))
+            if k == "discr":
+                return E("discr", sub(rv[1]))
+            if k == "agg" and rv[1] == "adt":
+                names = rv[3]
+                adt = short_path(rv[2], 1)
+                nm = adt if names[0] == adt else "%s::%s" % (adt, names[0])
+                return E("agg", nm, tuple((names[1:][i] if i < len(names) - 1 else str(i), sub(o)) for i, o in enumerate(rv[4])))
+            if k == "agg" and rv[1] != "closure":
+                return E("agg", rv[1], tuple((str(i), sub(o)) for i, o in enumerate(rv[4])))
+            return self._rvalue_expr(rv, 0, ())
+
+        if 0 < n <= self.arg_count:
+            e = self.local_expr(n)
+        else:
+            cands = []
+            for (bb, si, proj, rv) in self.defs().get(n, []):
+                if proj != () or bb not in pos or pos[bb] >= limit + (0 if si == "call" else 1):
+                    continue
+                # a call defines its dest at the END of block bb: usable only by later blocks
+                if si == "call" and pos[bb] >= limit:
+                    continue
+                cands.append((pos[bb], 10 ** 6 if si == "call" else si, rv))
+            if cands:
+                cands.sort(key=lambda c: (c[0], c[1]))
+                at, _, rv = cands[-1]
+                e = rv_on_path(rv, at)
+            else:
+                e = self.local_expr(n)
+                if projs and "*" not in projs:
+                    pd = [d for d in self.defs().get(n, []) if d[2] == projs and d[0] in pos]
+                    if pd:
+                        pd.sort(key=lambda d: pos[d[0]])
+                        return rv_on_path(pd[-1][3], pos[pd[-1][0]])
         for p in projs:
             e = self._project(e, p)
         return e
